@@ -129,6 +129,7 @@ func (n *memNet) dial(ctx context.Context, network, addr string) (net.Conn, erro
 			return nil, &net.OpError{Op: "dial", Net: network, Err: syscall.ECONNREFUSED}
 		}
 		c1, c2 := net.Pipe()
+		c1 = &resetConn{Conn: c1, rt: rt}
 		if os.Getenv("VERIF_DEBUG") != "" {
 			c1 = &debugConn{Conn: c1}
 		}
@@ -512,4 +513,29 @@ func (d *debugConn) Close() error {
 	os.Stderr.Write([]byte("CLOSE proxy->target conn at " + time.Now().Format("15:04:05.000") + "\n"))
 	os.Stderr.Write(buf[:n])
 	return d.Conn.Close()
+}
+
+// resetConn is the proxy's end of a connection to a raw target: when the target has announced a
+// reset, the end of the stream is reported the way the kernel reports an RST on a TCP socket
+// (`read tcp …: connection reset by peer`, errno ECONNRESET; EPIPE on a later write).
+type resetConn struct {
+	net.Conn
+	rt *rawTarget
+}
+
+func (c *resetConn) Read(p []byte) (int, error) {
+	n, err := c.Conn.Read(p)
+	if err == io.EOF && c.rt.resetting.Load() {
+		c.rt.resetting.Store(false)
+		return n, &net.OpError{Op: "read", Net: "tcp", Err: os.NewSyscallError("read", syscall.ECONNRESET)}
+	}
+	return n, err
+}
+
+func (c *resetConn) Write(p []byte) (int, error) {
+	n, err := c.Conn.Write(p)
+	if err == io.ErrClosedPipe && c.rt.resetting.Load() {
+		return n, &net.OpError{Op: "write", Net: "tcp", Err: os.NewSyscallError("write", syscall.EPIPE)}
+	}
+	return n, err
 }
